@@ -42,7 +42,7 @@ LEVEL_TEXT = ('Lean 4 theorems, for all lists of tilt elements (angular, first-o
               '(regenerated tests Gen.fitTiltSkips, Gen.pttVectorNone; model fitTiltCall): OPD + ramp of what was recorded is unchanged in both branches '
               '(fit_tilt_call_total_unchanged); nothing is fitted exactly when the plane has no shape or its OPD a single sample, and then the OPD comes back as it was (fit_tilt_call_skips_iff). '
               'The loop of Field.shift is regenerated (Gen.fieldShiftFold: initial accumulators, which accumulator feeds xs / ys of tilt.shift, which result is kept as x / y) and '
-              'foldShift_is_generated proves the model\'s foldShift is that fold.')
+              'foldShift_is_generated proves the model\'s foldShift is that fold; the per-segment OPD term of the segmented fit (Gen.fitSegOpdTerm) is regenerated and fitTiltOpdSeg_is_generated proves the model sums exactly it.')
 LEVEL_NOTE = ('Partial, two stated contracts: (1) np.linalg.lstsq returns a solution of the normal equations of the masked basis — the single trusted '
               'fact of the fit clause (hypothesis hN of fit_tilt_is_least_squares), re-solved independently and checked by the oracle on every case; '
               '(2) for DispersiveTilt of order > 1, scipy.optimize.leastsq/scipy.integrate.quad return a root of the generated residuals (DispersiveSolved), '
